@@ -12,6 +12,10 @@ CFG = {'assumptions': ['the section is in the property domain: 0 <= off, 0 <= n,
                                 'and the file content afterwards',
         'iohelper.Nested': 'sections of sections: NewSectionWriter / AtToWriter over a *SectionWriter over ... the in-memory file, calls '
                            'addressed to any level, every (offset, bytes) the file receives and the file content afterwards',
+        'iohelper.BigWrite': 'iohelper.NewSectionWriter + Write/WriteAt/Seek/Size with buffers given compactly (up to 4 MiB) over a mock that '
+                             'accepts bytes below an absolute offset and fails from there on; what the mock accepted per call, contiguous pieces merged',
+        'iohelper.Concurrent': 'one iohelper.SectionWriter, caller A WriteAt held inside the mock underlying writer (channels) while caller B '
+                               'WriteAt / Write runs to completion',
         'pbcmpl.File': 'pbcmpl.Marshal(iohelper.AtToWriter(memfile, off), msg) for several (off, msg) in one in-memory file, the file content, '
                        'then pbcmpl.Unmarshal(iohelper.AtToReader(memfile, off), blank) for every off'},
  'rule': 'one case = one whole call sequence on a fresh section over a scripted mock io.WriterAt; every return value and '
@@ -42,5 +46,10 @@ CFG = {'assumptions': ['the section is in the property domain: 0 <= off, 0 <= n,
                   'iohelper.Nested = 2 (occasionally 3) stacked section writers, the outer window inside / flush with / straddling / beyond '
                   'the inner one, outer n = 0, inner n = 0, AtToWriter levels; 2..14 calls mostly on the outermost writer with direct calls '
                   'on inner writers interleaved, fault scripts; exhaustive: inner (1, 0..4) x outer (0..5, {AtToWriter, 0..4}) x 5 call '
-                  'patterns; non-trivial when a Write/WriteAt was issued on an outer level',
+                  'patterns; non-trivial when a Write/WriteAt was issued on an outer level. '
+                  'iohelper.BigWrite = ONE Write of 1 MiB + k bytes (2.5 MiB in the thorough tier) after a small one over a writer failing at an '
+                  'absolute offset shortly after the first MiB / nowhere / inside the first MiB, section open / 5 bytes short / exact, then '
+                  'Seek(0,SeekCurrent), Write(1000), Seek(0,SeekCurrent), Size, WriteAt; plus 400 (8000) small-buffer histories over the same '
+                  'position-fault writer. iohelper.Concurrent = exhaustive: section (5, n in {0,1,4}) x cursor 0/2 x A WriteAt(0/1/3/6 bytes at '
+                  '-1/0/2/3/4) held inside the underlying writer x B WriteAt(0..2 bytes at 0/1/3/4) or Write(0..2 bytes)',
  'shrink_s': 30}
